@@ -16,7 +16,8 @@ COMMON_ASSUMPTIONS = [
 PROPS = {
     "C01": dict(tags=["C01"], runs=[
         R("rand", "64", "core", 260, 80), R("plain", "64", "core", 160, 80), R("det", "64", "core", 160, 80),
-XX: dict(tags=["C02"], runs=[
+        R("rand", "64", "core", 60, 80, mode="unscripted"), R("rand", "64", "prims", 1, 1, thor=(2, 1))]),
+    "C02": dict(tags=["C02"], runs=[
         R("rand", "32", "core", 260, 80), R("plain", "32", "core", 160, 80), R("det", "32", "core", 160, 80),
         R("rand", "32", "core", 60, 80, mode="unscripted"), R("rand", "32", "prims", 1, 1, thor=(2, 1))]),
     "C03": dict(tags=["C03"], runs=[
